@@ -297,7 +297,7 @@ class FocusGen(DocGen):
                         out.append(n)
         return out
 
-    def render(self, tag, indent, inner="", form=None, **kw):
+    def render(self, tag, indent, inner="", form=None, end_tag=None, **kw):
         b = self.blocks[tag]
         is_block = b.is_block if form is None else form
         pad = " " * indent
@@ -305,7 +305,7 @@ class FocusGen(DocGen):
             return self.element(tag, indent // 2)
         t = pad + ("/begin " if is_block else "") + " ".join([tag] + self.head(tag, **kw)) + "\n" + inner
         if is_block:
-            t += pad + "/end " + tag + "\n"
+            t += pad + "/end " + (end_tag or tag) + "\n"
         return t
 
     def document(self, path, leaf_text):
@@ -359,7 +359,8 @@ def deviation_documents(dsl_text):
                             if isinstance(ff, Ref) and c in ff.names and not g.in_version(ff.vlow, None) and c != tag:
                                 return
                     form = kw.pop("form", None)
-                    leaf = "".join(g.render(tag, 2 * len(path), "".join(g.render(r, 2 * (len(path) + 1)) for r in g.required_children(tag)), form=form, **kw)
+                    end_tag = kw.pop("end_tag", None)
+                    leaf = "".join(g.render(tag, 2 * len(path), "".join(g.render(r, 2 * (len(path) + 1)) for r in g.required_children(tag)), form=form, end_tag=end_tag, **kw)
                                    for _ in range(count))
                     docs.append({"text": g.document(path, leaf), "kind": kind, "element": tag, "parent": ptag, "expect": expect, "hard": hard,
                                  "version": "%d.%02d" % version})
@@ -378,6 +379,9 @@ def deviation_documents(dsl_text):
                 make("wrong_block_form", "*" if (parent_seq or has_seq) else ("IncorrectKeywordError" if not b.is_block else "IncorrectBlockError"), True, form=not b.is_block)
                 if first_name and any(isinstance(x, Param) and x.ty in enums and not x.dim for x in b.fields):
                     make("unknown_enum_value", "InvalidEnumValue", True, bad_enum=True)
+                if first_name and b.is_block:
+                    # the block is closed with another tag: recoverable, like the other problems of a well-formed block
+                    make("wrong_end_tag", "IncorrectEndTag", False, end_tag=tag + "_X")
                 if f.vlow:
                     older = [v for v in VERSIONS if v < f.vlow]
                     if older:
@@ -647,6 +651,11 @@ def deviation_module(docs):
         out.append("        %d => (%s, %s, %s, %s)," % (i, rust_str(d["text"]), rust_str(d["kind"]), rust_str(d["expect"]), "true" if d["hard"] else "false"))
     out.append('        _ => ("", "", "", false),')
     out.append("    }\n}")
+    # index tables for C06: documents with a recoverable problem (strict rejects, non-strict recovers and reports)
+    rec = [i for i, d in enumerate(docs) if d["kind"] not in ("valid", "deprecated") and not d["hard"]]
+    end = [i for i, d in enumerate(docs) if d["kind"] == "wrong_end_tag"]
+    out.append("pub(crate) const DEV_RECOVERABLE: &[u32] = &[%s];" % ", ".join(map(str, rec)))
+    out.append("pub(crate) const DEV_END_TAG: &[u32] = &[%s];" % ", ".join(map(str, end)))
     return "\n".join(out) + "\n"
 
 
